@@ -44,7 +44,7 @@ func ruleSpanCheck(c *Ctx, rule string) {
 				continue
 			}
 			for edge, succ := range b.Succs {
-				if !rejects(succ) {
+				if !rejectsFrom(b, succ) {
 					continue
 				}
 				f, ok := strictForm(bo, edge, env)
@@ -776,6 +776,50 @@ func ruleTableZero(c *Ctx, rule string, fns []*ssa.Function) {
 							}
 						}
 					}
+				}
+			}
+		}
+		if table == nil {
+			// a running cell index (p++ along the row): the table is the slice of r*c cells written inside
+			// the doubly nested loop
+			loops := naturalLoops(fn)
+			depth := func(b *ssa.BasicBlock) int {
+				n := 0
+				for _, l := range loops {
+					if l.body[b] {
+						n++
+					}
+				}
+				return n
+			}
+			cands := map[ssa.Value]bool{}
+			for _, b := range fn.Blocks {
+				if depth(b) < 2 {
+					continue
+				}
+				for _, ins := range b.Instrs {
+					ia, ok := ins.(*ssa.IndexAddr)
+					if !ok || !addrWritten(ia) {
+						continue
+					}
+					if _, isSl := ia.X.Type().Underlying().(*types.Slice); !isSl {
+						continue
+					}
+					var size ssa.Value
+					switch d := ia.X.(type) {
+					case *ssa.MakeSlice:
+						size = d.Len
+					case *ssa.Slice:
+						size = d.High
+					}
+					if m, ok := size.(*ssa.BinOp); ok && m.Op == token.MUL {
+						cands[ia.X] = true
+					}
+				}
+			}
+			if len(cands) == 1 {
+				for t := range cands {
+					table = t
 				}
 			}
 		}
@@ -1514,7 +1558,7 @@ func ruleZeroStart(c *Ctx, rule string) {
 			continue
 		}
 		for edge, succ := range b.Succs {
-			if !rejects(succ) {
+			if !rejectsFrom(b, succ) {
 				continue
 			}
 			n++
